@@ -979,8 +979,24 @@ func (p *c08) Run(c *verifsim.Chooser, st *Stats, render bool) *Outcome {
 					return o
 				}
 				if err != nil {
+					// the host ignores the error and carries on, then puts the
+					// last good text back and prepares again: that must work
+					// as it did before
 					p.pokeUnprepared(o, ev)
-					return o
+					if len(o.V) > 0 {
+						return o
+					}
+					ev.e.Script = curText
+					err, esc = doPrepare(ev.e, opt)
+					if p.check(o, esc, "Prepare of the earlier text after a failed Prepare ("+how+")") {
+						return o
+					}
+					if err != nil {
+						o.violate("C08/unusable-after-fault", "prepare-after-failed-prepare", "a text that prepared before is rejected after another text failed to prepare on the same evaluator (%s): %v", how, err)
+						return o
+					}
+					hist = append(hist, "Script = (the earlier text); Prepare -> <nil>")
+					nt = curText
 				}
 				curText = nt
 				_, _, desc := doDump(ev.e)
